@@ -611,7 +611,7 @@ def hx(s):
     return bytes.fromhex(s).decode("utf-8", "replace")
 
 
-def run(ctx):
+def _run(ctx):
     rng = ctx.rng
     thorough = ctx.tier == "thorough"
     ctx.rule = ("model check(aliasRec=false) == real mj_parseXMLString on every document (accept / 'Schema violation' message, "
@@ -906,6 +906,22 @@ def fuzz(ctx, texts):
         ctx.oracle_failure("c37:sanitizer-report-in-reader-or-standin",
                            "ASan/UBSan build: the process stopped on a mutated document (could be the tinyxml2 stand-in or "
                            "src/xml): " + err[-400:], {"xml_hex": lines[i].split(" # ")[1], "stderr": err[-1500:]})
+
+
+def _distinct_first(ctx):
+    """the replay file keeps the first 20 failures: put one failure of every distinct key first"""
+    seen, head, tail = set(), [], []
+    for f in ctx.oracle_failures:
+        (tail if f["key"] in seen else head).append(f)
+        seen.add(f["key"])
+    ctx.oracle_failures[:] = head + tail
+
+
+def run(ctx):
+    try:
+        _run(ctx)
+    finally:
+        _distinct_first(ctx)
 
 
 if __name__ == "__main__":
